@@ -3,3 +3,4 @@ import Mappy.Driver
 import Mappy.Props.C17
 import Mappy.Props.C18
 import Mappy.Props.C16
+import Mappy.Props.C06
